@@ -123,9 +123,16 @@ class World:
         self.dl.close()
 
     # -- concrete frames -----------------------------------------------
+    unpadded = False
+
     def frame(self, fs):
         index0, enabled, wk = fs
         f = bytearray(ETH + self.sterile)
+        if self.unpadded:
+            # as a sender that does not pad to the Ethernet minimum (a
+            # virtual link) puts it on the wire
+            ln, = struct.unpack_from("<H", f, 14)
+            del f[16 + (ln & 0x7ff):]
         f[17] = index0
         for (cpos, wpos, cmd, exp), en, w in zip(self.writers, enabled, wk):
             f[cpos] = cmd if en else 0
